@@ -11,6 +11,9 @@
 //	           continuous, delayed, permanent, module blocked/unblocked, EthAccount, no account), histories of
 //	           payouts with advancing block time and delegations; the real bank LockedCoins / SpendableCoins
 //	           sampled around every period boundary before and after.
+//	c20.guard  the refusal clause: single calls of SendTimeLockedCoinsToAccount observed on the keeper's own
+//	           context (no rollback), multi-denom payouts against module balances that are absent / short /
+//	           exact / ample per denom, for every recipient kind, schedule phase and lock-up length incl. 0.
 package main
 
 import (
@@ -22,6 +25,7 @@ import (
 	"time"
 
 	sdk "github.com/cosmos/cosmos-sdk/types"
+	"github.com/cosmos/cosmos-sdk/types/query"
 	authtypes "github.com/cosmos/cosmos-sdk/x/auth/types"
 	vestexported "github.com/cosmos/cosmos-sdk/x/auth/vesting/exported"
 	vestingtypes "github.com/cosmos/cosmos-sdk/x/auth/vesting/types"
@@ -611,15 +615,11 @@ func accStr(acc authtypes.AccountI) string {
 	return acc.String()
 }
 
-func (w *world) seqSend(out *c.Out, seq int, r *c.Rng) {
-	ctx, _ := w.base.CacheContext()
+// mkParties: recipients of every kind; vesting kinds are set up as a valid genesis would (Validate() == nil,
+// funded). Index 0,1 base accounts, 2,3 periodic vesting accounts, then continuous, delayed, permanent-locked,
+// module account(s) (blocked / unblocked), EthAccount, no account.
+func (w *world) mkParties(ctx sdk.Context, r *c.Rng, now int64) []*party {
 	ak := w.tApp.GetAccountKeeper()
-	bk := w.tApp.GetBankKeeper()
-	k := w.tApp.GetIncentiveKeeper()
-	now := kapp.GenTime.Unix() + r.Range(0, 40*86400)
-	ctx = ctx.WithBlockTime(at(now))
-
-	// recipients of every kind; vesting kinds are set up as a valid genesis would (Validate() == nil, funded)
 	var ps []*party
 	add := func(kind string, addr sdk.AccAddress) { ps = append(ps, &party{addr: addr, kind: kind}) }
 	for i := 0; i < 2; i++ { // base accounts, one with coins of its own
@@ -667,6 +667,18 @@ func (w *world) seqSend(out *c.Out, seq int, r *c.Rng) {
 	ak.SetAccount(ctx, eth)
 	add("other", w.addrs[7])
 	add("none", w.addrs[8])
+	return ps
+}
+
+func (w *world) seqSend(out *c.Out, seq int, r *c.Rng) {
+	ctx, _ := w.base.CacheContext()
+	ak := w.tApp.GetAccountKeeper()
+	bk := w.tApp.GetBankKeeper()
+	k := w.tApp.GetIncentiveKeeper()
+	now := kapp.GenTime.Unix() + r.Range(0, 40*86400)
+	ctx = ctx.WithBlockTime(at(now))
+
+	ps := w.mkParties(ctx, r, now)
 
 	// the incentive module account: sometimes rich, sometimes nearly empty
 	var pot vec
@@ -769,8 +781,28 @@ func (w *world) seqSend(out *c.Out, seq int, r *c.Rng) {
 			}
 		}
 
+		// now and then the incentive account runs completely out of one or two denoms (all of it is sent to a
+		// sink) and is not refilled in this block: the next payout meets a denom that is absent from the
+		// paying account while the other denoms are amply covered
+		drained := false
+		if r.Chance(10) {
+			cur := vecOf(bk.GetAllBalances(ctx, w.macc))
+			var gone vec
+			gone[r.Intn(3)] = 1
+			if r.Chance(30) {
+				gone[r.Intn(3)] = 1
+			}
+			for d := range gone {
+				gone[d] *= cur[d]
+			}
+			if !gone.isZero() {
+				must(bk.SendCoinsFromModuleToAccount(ctx, incentivetypes.IncentiveMacc, w.addrs[9], gone.coins()))
+				drained = true
+				out.Note("pot-denom-drained")
+			}
+		}
 		// kavadist mints into the incentive account every block: top the pot up most of the time
-		if cur := vecOf(bk.GetAllBalances(ctx, w.macc)); r.Chance(80) {
+		if cur := vecOf(bk.GetAllBalances(ctx, w.macc)); !drained && r.Chance(80) {
 			var top vec
 			for d := range cur {
 				if cur[d] < 200 {
@@ -787,12 +819,20 @@ func (w *world) seqSend(out *c.Out, seq int, r *c.Rng) {
 		modBal := vecOf(bk.GetAllBalances(ctx, w.macc))
 		bal := vecOf(bk.GetAllBalances(ctx, p.addr))
 		blocked := bk.BlockedAddr(p.addr)
+		preAll := w.allState(ctx, p.addr)
 
 		// amount: mostly affordable, sometimes the whole pot, sometimes one unit too much
 		amt := randAmt(r)
 		for d := range amt {
 			if amt[d] > modBal[d] && r.Chance(70) {
 				amt[d] = modBal[d]
+			}
+		}
+		if drained && r.Chance(60) { // a multi-denom payout that includes a denom the pot has run out of
+			for d := range amt {
+				if amt[d] == 0 && (modBal[d] == 0 || r.Chance(50)) {
+					amt[d] = r.Range(1, 50)
+				}
 			}
 		}
 		switch r.Intn(16) {
@@ -829,7 +869,8 @@ func (w *world) seqSend(out *c.Out, seq int, r *c.Rng) {
 			cls = "err"
 			// what the keeper left behind in its own context when it refused (no rollback yet)
 			same := accStr(ak.GetAccount(cctx, p.addr)) == accStr(preAcc)
-			raw = fmt.Sprintf("%s|%s|%s", vecOf(bk.GetAllBalances(cctx, w.macc)), vecOf(bk.GetAllBalances(cctx, p.addr)), c.B(same))
+			raw = fmt.Sprintf("%s|%s|%s|%s", vecOf(bk.GetAllBalances(cctx, w.macc)), vecOf(bk.GetAllBalances(cctx, p.addr)), c.B(same),
+				c.B(w.allState(cctx, p.addr) == preAll))
 			e := err.Error()
 			for _, key := range []string{"insufficient", "account not found", "invalid account type", "not allowed to receive"} {
 				if strings.Contains(e, key) {
@@ -913,6 +954,251 @@ func (w *world) seqSend(out *c.Out, seq int, r *c.Rng) {
 	}
 }
 
+// ------------------------------------------------------------------------------------------ c20.guard
+
+// balance class of one denom of the paying module account relative to the payout
+const (
+	clsNone   = iota // the denom is not part of the payout
+	clsAbsent        // part of the payout, the module account holds none of it
+	clsShort         // part of the payout, held but not enough
+	clsExact         // held exactly
+	clsAmple         // held with room to spare
+)
+
+var clsName = []string{"-", "absent", "short", "exact", "ample"}
+
+type pattern [3]int
+
+// every assignment of a class to the three denoms with at least one denom in the payout (124)
+func allPatterns() []pattern {
+	var ps []pattern
+	for a := 0; a < 5; a++ {
+		for b := 0; b < 5; b++ {
+			for d := 0; d < 5; d++ {
+				if a+b+d > 0 {
+					ps = append(ps, pattern{a, b, d})
+				}
+			}
+		}
+	}
+	return ps
+}
+
+// shape: number of payout denoms and the first denom (in sdk.Coins order) the module account cannot cover
+func (p pattern) shape() string {
+	n, pos := 0, 0
+	first := "covered"
+	for _, cl := range p {
+		if cl == clsNone {
+			continue
+		}
+		if first == "covered" && (cl == clsAbsent || cl == clsShort) {
+			first = fmt.Sprintf("%s@%d", clsName[cl], pos)
+		}
+		pos++
+		n++
+	}
+	return fmt.Sprintf("n=%d|%s", n, first)
+}
+
+// seqGuard: the refusal clause at keeper level. Every case is ONE call of SendTimeLockedCoinsToAccount made
+// directly on a context of its own; everything the driver judges is read from that same context after the
+// call returned, so a refusal that has already moved coins (which a transaction rollback would hide) is
+// seen. Per sequence: recipients of every kind, then all 124 per-denom balance patterns (absent / short /
+// exact / ample, 1-3 payout denoms) once against a lockable recipient (base / periodic, rotating) and once
+// against one of the other kinds, with lock-up lengths incl. 0, periodic recipients in every schedule phase.
+func (w *world) seqGuard(out *c.Out, seq int, r *c.Rng) {
+	ctx, _ := w.base.CacheContext()
+	ak := w.tApp.GetAccountKeeper()
+	bk := w.tApp.GetBankKeeper()
+	k := w.tApp.GetIncentiveKeeper()
+	now := kapp.GenTime.Unix() + r.Range(0, 40*86400)
+	ctx = ctx.WithBlockTime(at(now))
+	ps := w.mkParties(ctx, r, now)
+	// some payout history first: schedules that were produced by the keeper itself, a base account that may
+	// already have been converted
+	for _, p := range ps[1:4] {
+		for j := r.Range(0, 2); j > 0; j-- {
+			a := randAmt(r)
+			if a.isZero() {
+				continue
+			}
+			must(bk.MintCoins(ctx, incentivetypes.IncentiveMacc, a.coins()))
+			pva, _ := ak.GetAccount(ctx, p.addr).(*vestingtypes.PeriodicVestingAccount)
+			l := lockup(r, now, pva)
+			kapp.Exec(ctx, func(cx sdk.Context) error {
+				return k.SendTimeLockedCoinsToAccount(cx, incentivetypes.IncentiveMacc, p.addr, a.coins(), l)
+			})
+		}
+	}
+	if cur := bk.GetAllBalances(ctx, w.macc); !cur.IsZero() { // every case starts from an empty pot
+		must(bk.SendCoinsFromModuleToAccount(ctx, incentivetypes.IncentiveMacc, w.addrs[9], cur))
+	}
+	pats := allPatterns()
+	for pi, pat := range pats {
+		w.guardCase(out, r, ctx, now, ps[(pi+seq)%4], pat, true)
+		w.guardCase(out, r, ctx, now, ps[4+r.Intn(len(ps)-4)], pat, false)
+	}
+}
+
+func (w *world) guardCase(out *c.Out, r *c.Rng, seqCtx sdk.Context, seqNow int64, p *party, pat pattern, lockable bool) {
+	ak := w.tApp.GetAccountKeeper()
+	bk := w.tApp.GetBankKeeper()
+	k := w.tApp.GetIncentiveKeeper()
+	ctx, _ := seqCtx.CacheContext() // this case's own context: set-up, the call and every observation use it
+
+	// block time: periodic recipients in a chosen phase of their schedule
+	now := seqNow + r.Range(0, 30)
+	prePva, _ := ak.GetAccount(ctx, p.addr).(*vestingtypes.PeriodicVestingAccount)
+	if prePva != nil {
+		var phase string
+		now, phase = phaseTime(r, prePva)
+		out.Note("guard-phase:" + phase)
+	}
+	ctx = ctx.WithBlockTime(time.Unix(now, r.Range(0, 999999999)).UTC())
+
+	// the payout and the pot, denom by denom
+	var amt, pot vec
+	for d, cl := range pat {
+		if cl == clsNone {
+			if r.Chance(50) {
+				pot[d] = r.Range(1, 3000)
+			}
+			continue
+		}
+		amt[d] = r.Range(1, 50)
+		if cl == clsShort && amt[d] < 2 {
+			amt[d] = 2
+		}
+		switch cl {
+		case clsShort:
+			pot[d] = r.Range(1, amt[d]-1)
+			if r.Chance(30) {
+				pot[d] = amt[d] - 1
+			}
+		case clsExact:
+			pot[d] = amt[d]
+		case clsAmple:
+			pot[d] = amt[d] + r.Range(1, 3000)
+			if r.Chance(20) {
+				pot[d] = amt[d] + 1
+			}
+		}
+	}
+	if !pot.isZero() {
+		must(bk.MintCoins(ctx, incentivetypes.IncentiveMacc, pot.coins()))
+	}
+	// the coin set as the claim code builds it (sorted, positive); a few deliberately malformed encodings
+	cs := amt.coins()
+	coinsValid := true
+	switch {
+	case len(cs) >= 2 && r.Chance(5): // not sorted
+		cs[0], cs[len(cs)-1] = cs[len(cs)-1], cs[0]
+		coinsValid = false
+		out.Note("guard-coins-unsorted")
+	case r.Chance(2): // a denom twice
+		i := r.Intn(len(cs))
+		dup := append(sdk.Coins{}, cs[:i+1]...)
+		cs = append(dup, cs[i:]...)
+		amt[indexOf(cs[i].Denom)] *= 2
+		coinsValid = false
+		out.Note("guard-coins-duplicate")
+	}
+	// lock-up length
+	var length int64
+	genLen := "rel"
+	pz := 20
+	if !lockable {
+		pz = 50
+	}
+	switch x := r.Intn(100); {
+	case x < pz:
+		length, genLen = 0, "zero"
+	case x < pz+10:
+		length, genLen = 1, "one"
+	case x < pz+25:
+		length, genLen = k.GetPeriodLength(ctx.BlockTime(), r.Range(1, 13)), "payday"
+	default:
+		length = lockup(r, now, prePva)
+	}
+
+	type obs struct {
+		acc                       authtypes.AccountI
+		kind                      string
+		pva                       *vestingtypes.PeriodicVestingAccount
+		modBal, bal, sup          vec
+		maccS, balS, supS, accStr string
+	}
+	observe := func() obs {
+		var o obs
+		o.acc = ak.GetAccount(ctx, p.addr)
+		o.kind = kindOf(o.acc)
+		o.pva, _ = o.acc.(*vestingtypes.PeriodicVestingAccount)
+		mb, rb := bk.GetAllBalances(ctx, w.macc), bk.GetAllBalances(ctx, p.addr)
+		o.modBal, o.bal = vecOf(mb), vecOf(rb)
+		for d, dn := range denoms {
+			o.sup[d] = bk.GetSupply(ctx, dn).Amount.Int64()
+		}
+		sup, _, err := bk.GetPaginatedTotalSupply(ctx, &query.PageRequest{Limit: 1000})
+		must(err)
+		o.maccS, o.balS, o.supS, o.accStr = mb.String(), rb.String(), sup.String(), accStr(o.acc)
+		return o
+	}
+	pre := observe()
+	blocked := bk.BlockedAddr(p.addr)
+
+	var err error
+	panicked, pmsg := c.Recover(func() {
+		err = k.SendTimeLockedCoinsToAccount(ctx, incentivetypes.IncentiveMacc, p.addr, cs, length)
+	})
+	cls := "ok"
+	switch {
+	case panicked:
+		cls = "panic"
+		out.Note("panic: " + pmsg)
+	case err != nil:
+		cls = "err"
+	}
+	post := observe() // the same context, nothing rolled back
+	same := c.B(pre.maccS == post.maccS) + c.B(pre.balS == post.balS) + c.B(pre.supS == post.supS) + c.B(pre.accStr == post.accStr)
+	valid := "-"
+	if cls == "ok" && post.pva != nil {
+		valid = validStr(post.pva)
+	}
+	pvaF := func(a *vestingtypes.PeriodicVestingAccount) []string {
+		if a != nil {
+			return pvaFields(a)
+		}
+		return noPva
+	}
+	sig := fmt.Sprintf("%s|%s|len=%s|blocked=%v|%s|coins=%v", pre.kind, cls, genLen, blocked, pat.shape(), coinsValid)
+	f := []string{strconv.FormatInt(now, 10), pre.kind, c.B(blocked), pre.modBal.String(), pre.bal.String()}
+	f = append(f, pvaF(pre.pva)...)
+	f = append(f, amt.String(), strconv.FormatInt(length, 10), c.B(coinsValid), pre.sup.String(), "=>",
+		cls, post.kind, post.modBal.String(), post.bal.String())
+	f = append(f, pvaF(post.pva)...)
+	f = append(f, post.sup.String(), same, valid)
+	out.Case(sig, "c20.guard", f...)
+}
+
+func indexOf(denom string) int {
+	for i, d := range denoms {
+		if d == denom {
+			return i
+		}
+	}
+	panic("unknown denom " + denom)
+}
+
+// allState: every balance (all denoms) of the paying module account and of the recipient, and the bank's
+// total supply, as one comparable string
+func (w *world) allState(ctx sdk.Context, addr sdk.AccAddress) string {
+	bk := w.tApp.GetBankKeeper()
+	sup, _, err := bk.GetPaginatedTotalSupply(ctx, &query.PageRequest{Limit: 1000})
+	must(err)
+	return bk.GetAllBalances(ctx, w.macc).String() + "|" + bk.GetAllBalances(ctx, addr).String() + "|" + sup.String()
+}
+
 // tierPick: per-sequence length by tier (not amplified; amplification multiplies the number of sequences)
 func tierPick(quick, thorough int) int {
 	if c.Tier() == "thorough" {
@@ -937,11 +1223,15 @@ func main() {
 	runCal(out, r.Fork(1000003))
 	nSched := c.Budget(160, 1200)
 	nSend := c.Budget(200, 1500)
-	kapp.RunSeqs(nSched+nSend, c.Workers(), r.Fork(1000005), mkWorld, func(w *world, seq int, r *c.Rng) {
-		if seq < nSched {
+	nGuard := c.Budget(20, 160)
+	kapp.RunSeqs(nSched+nSend+nGuard, c.Workers(), r.Fork(1000005), mkWorld, func(w *world, seq int, r *c.Rng) {
+		switch {
+		case seq < nSched:
 			w.seqSched(out, seq, r)
-		} else {
+		case seq < nSched+nSend:
 			w.seqSend(out, seq, r)
+		default:
+			w.seqGuard(out, seq, r)
 		}
 	})
 }
